@@ -593,7 +593,7 @@ func VH_C12_routing() {
 		_, err := sp.ValidateEncodedResponse(enc)
 		vDebugErr("validate", err)
 		vReach("validated", err == nil)
-		vAssert("C12.every-inflation-bounded-by-the-configured-limit", vMaterialised()-1 <= eff)
+		vAssertModel("C12.every-inflation-bounded-by-the-configured-limit", vMaterialised()-1 <= eff)
 		vAssert("C12.every-inflation-within-8x-the-configured-limit", vOr(eff > 1<<23, vMaterialised() <= 8*(eff+1)+(1<<20)))
 		if err == nil && mode == 1 {
 			vAssert("C12.accepted-compressed-message-fits-the-configured-limit", vWireInflatedLen("wire") <= eff)
@@ -602,7 +602,7 @@ func VH_C12_routing() {
 		pre, err := DecodeUnverifiedBaseResponse(enc)
 		vDebugErr("predecode", err)
 		vReach("predecoded", err == nil)
-		vAssert("C12.pre-decoder-inflation-bounded-by-5MiB", vMaterialised()-1 <= 5*1024*1024)
+		vAssertModel("C12.pre-decoder-inflation-bounded-by-5MiB", vMaterialised()-1 <= 5*1024*1024)
 		if err == nil && mode == 1 {
 			vAssert("C12.pre-decoder-accepts-compressed-only-within-5MiB", vWireInflatedLen("wire") <= 5*1024*1024)
 		}
